@@ -6,6 +6,9 @@ import (
 	"verifsim/kernel"
 )
 
+// GenNodeCfg draws a node profile (archive or pruning, flush knobs, disk batch scale).
+func GenNodeCfg(rng *kernel.RNG) NodeCfg { return genNodeCfg(rng) }
+
 func genNodeCfg(rng *kernel.RNG) NodeCfg {
 	cfg := NodeCfg{Archive: rng.Bool(0.4), Scale: []int{1, 1, 50, 2000}[rng.Intn(4)]}
 	if !cfg.Archive {
